@@ -140,7 +140,7 @@ def run_regressions(pid, hs):
 def check(pid, tier, seed, hs, level, rule, assumptions=(), extra_cov=None, min_eval=1):
     """Generic E1 check. Returns process exit code."""
     t0 = time.time()
-    workdir = os.path.join(core.BUILD, "work", pid)
+    workdir = os.path.join(core.WORK, pid)
     os.makedirs(workdir, exist_ok=True)
     core.prune_cache()
     try:
